@@ -32,6 +32,16 @@ def make_pki(d):
         {'name': 'expired', 'root': 'right', 'sans': sans, 'not_before': now - 40 * 86400, 'not_after': now - 86400},
         {'name': 'not-yet', 'root': 'right', 'sans': sans, 'not_before': now + 5 * 86400, 'not_after': now + 40 * 86400},
     ]}])
+    # an OpenSSL certificate directory holding the never-listed root (hashed file name), when the openssl tool is there to name it
+    try:
+        import subprocess
+        h = subprocess.run(['openssl', 'x509', '-noout', '-subject_hash', '-in', d + '/third.root.pem'], stdout=subprocess.PIPE, stderr=subprocess.DEVNULL, timeout=20).stdout.decode().strip()
+        if len(h) == 8:
+            os.makedirs(d + '/third.certdir')
+            import shutil
+            shutil.copy(d + '/third.root.pem', '%s/third.certdir/%s.0' % (d, h))
+    except (OSError, subprocess.SubprocessError):
+        pass
     open(d + '/empty.pem', 'w').close()
     open(d + '/garbage.pem', 'w').write('-----BEGIN CERTIFICATE-----\nthis is not base64\n-----END CERTIFICATE-----\n')
     open(d + '/text.pem', 'w').write('hello\n')
@@ -42,7 +52,16 @@ def run_case(case):
     host = 'localhost' if case['by_name'] else '127.0.0.1'
     tls = ('%s/%s.chain.pem' % (pki, case['server']), '%s/%s.key.pem' % (pki, case['server']))
 
+    swap = {'t': None}
+    if case.get('withdraw'):
+        import shutil
+        import time as _t
+        case['_dir'] = C.workdir('C18', 'own%d' % case['i'])
+        shutil.copy(pki + '/right.root.pem', case['_dir'] + '/own-root.pem')
+
     def path_of(src):
+        if src == 'right' and case.get('withdraw'):
+            return case['_dir'] + '/own-root.pem'      # a private copy, replaced while the daemon runs
         return {'right': pki + '/right.root.pem', 'wrong': pki + '/wrong.root.pem', 'missing': pki + '/does-not-exist.pem',
                 'empty': pki + '/empty.pem', 'garbage': pki + '/garbage.pem', 'text': pki + '/text.pem'}[src]
     extra_args = []
@@ -51,6 +70,13 @@ def run_case(case):
 
     def cfg(d, ca):
         certs = [{'name': 'c0', 'identifiers': S.ids('t%d.example.org' % case['i']), 'endpoint': 'ca1'}]
+        if case.get('hook_env'):
+            # variables meant for the hooks (global / certificate / account `env` tables) name a CA bundle: they configure the hooks'
+            # environment, not the daemon's trust
+            lvl, var = case['hook_env']
+            val = pki + '/third.root.pem' if var == 'SSL_CERT_FILE' else pki + '/third.certdir'
+            if lvl == 'certificate':
+                certs[0]['env'] = {var: val}
         ca_names = ['ca1']
         ep_extra = {'ca1': {}}
         if case['endpoint'] != 'none':
@@ -62,7 +88,13 @@ def run_case(case):
         g = {}
         if case['global'] != 'none':
             g['root_certificates'] = [path_of(case['global'])]
-        return S.std_config(d, ca, certs, ca_names=ca_names, endpoint_extra=ep_extra, global_extra=g)
+        accounts = None
+        if case.get('hook_env'):
+            if lvl == 'global':
+                g['env'] = {var: val}
+            elif lvl == 'account':
+                accounts = [{'name': 'acc1', 'env': {var: val}}]
+        return S.std_config(d, ca, certs, ca_names=ca_names, endpoint_extra=ep_extra, global_extra=g, accounts=accounts)
     sources = [case['cli'], case['endpoint'], case['global']]
     broken = [s for s in sources if s in ('missing', 'empty', 'garbage', 'text')]
     chain_ok = case['server'] in ('valid', 'valid-inter', 'other-root', 'unlisted-root')      # right name, currently valid
@@ -72,10 +104,27 @@ def run_case(case):
     src2 = [case['cli'], case['global']]
     trusted2 = chain_ok and need in src2 and not [s for s in src2 if s in ('missing', 'empty', 'garbage', 'text')]
     n_certs = 2 if case.get('second_endpoint') else 1
-    plan = {'default': {'lifetimes_s': [LONG], 'chain_lens': [1]}}
+    plan = {'default': {'lifetimes_s': [LONG] if not case.get('withdraw') else [100] * 30, 'chain_lens': [1]}}
 
     def stop(v):
         po = v.postops()
+        if case.get('withdraw'):
+            # once a certificate has been issued the root file is withdrawn / damaged / replaced; the daemon keeps renewing (100 s certificates)
+            if swap['t'] is None:
+                if any(p['kv'].get('is_success') == 'true' for p in po):
+                    f = case['_dir'] + '/own-root.pem'
+                    tmp = f + '.new'
+                    if case['withdraw'] == 'removed':
+                        os.remove(f)
+                    else:
+                        src = {'garbage': pki + '/garbage.pem', 'empty': pki + '/empty.pem', 'wrong-root': pki + '/wrong.root.pem'}[case['withdraw']]
+                        shutil.copy(src, tmp)
+                        os.replace(tmp, f)
+                    swap['t'] = _t.monotonic_ns()
+                    swap['n_po'] = len(po)
+                return False
+            return len(po) >= swap['n_po'] + 3
+        per = {}
         per = {}
         for p in po:
             per[p['cert']] = per.get(p['cert'], 0) + 1
@@ -84,6 +133,25 @@ def run_case(case):
     res = {'case': case, 'problems': [], 'requests': {}, 'handshake_failures': 0, 'expected': {'ca1': trusted1, 'ca2': trusted2 if n_certs == 2 else None}}
     try:
         pb = res['problems']
+        if case.get('withdraw'):
+            C.rmtree(case.pop('_dir'))
+            if swap['t'] is None:
+                res['infra'] = 'no certificate issued before the withdrawal of the root file'
+            else:
+                late = [r for r in run.ca_log if r.get('ca') and r.get('t_recv', 0) > swap['t'] + 300_000_000]
+                res['after_withdrawal'] = {'requests': len(late), 'refused_handshakes': len([r for r in run.ca_log if r.get('kind') == 'tls_handshake_failed' and r.get('t_recv', 0) > swap['t']]),
+                                           'attempts': len(run.postops()) - swap['n_po']}
+                if late:
+                    signed = [r for r in late if r.get('method') == 'POST']
+                    pb.append(('request-after-withdrawal', '%d request(s) (%d signed by the account key) reached the endpoint up to %.1f s after its root file (%s source) was %s; no root given at that time validates its chain' % (
+                        len(late), len(signed), (late[-1]['t_recv'] - swap['t']) / 1e9, [k for k in ('cli', 'endpoint', 'global') if case[k] == 'right'][0], case['withdraw'])))
+                if [p for p in run.postops()[swap['n_po'] + 1:] if p['kv'].get('is_success') == 'true']:
+                    pb.append(('success-untrusted', 'a certificate was reported as issued after the root file was %s' % case['withdraw']))
+                if run.rc is not None:
+                    pb.append(('daemon-died', 'the daemon ended by itself (status %s) after the root file was %s' % (run.rc, case['withdraw'])))
+            if res['problems']:
+                res['replay_dir'] = run.dir
+            return res
         for r in run.ca_log:
             if r.get('kind') == 'tls_handshake_failed':
                 res['handshake_failures'] += 1
@@ -155,7 +223,28 @@ def gen(tier, r, pki):
         cases = keep[:140]
         r.shuffle(broken)
         broken = broken[:24]
-    cases = cases + broken + leak
+    # a CA bundle named in the hooks' environment tables is not a source of trust
+    henv = []
+    have_dir = os.path.isdir(pki + '/third.certdir')
+    for lvl in ('global', 'certificate', 'account'):
+        for var in ('SSL_CERT_FILE',) + (('SSL_CERT_DIR',) if have_dir else ()):
+            for other in ('none', 'wrong'):
+                henv.append({'server': 'unlisted-root', 'by_name': lvl != 'account', 'cli': 'none', 'endpoint': other, 'global': 'none', 'hook_env': (lvl, var)})
+    # and the positive control: the same tables do not take trust away either
+    henv.append({'server': 'valid', 'by_name': True, 'cli': 'none', 'endpoint': 'right', 'global': 'none', 'hook_env': ('global', 'SSL_CERT_FILE')})
+    # a root file that was good when the daemon started and is withdrawn, damaged or replaced while it runs
+    wd = []
+    for kind in ('removed', 'garbage', 'empty', 'wrong-root'):
+        for where in ('cli', 'endpoint', 'global'):
+            c = {'server': 'valid', 'by_name': True, 'cli': 'none', 'endpoint': 'none', 'global': 'none', 'withdraw': kind}
+            c[where] = 'right'
+            wd.append(c)
+    if tier == 'quick':
+        r.shuffle(wd)
+        wd = wd[:6]
+        r.shuffle(henv)
+        henv = henv[:7]
+    cases = cases + broken + leak + henv + wd
     for i, c in enumerate(cases):
         c['i'] = i
         c['pki'] = pki
@@ -176,13 +265,20 @@ def run(tier):
     for res in results:
         c = res['case']
         chk.evaluations += 1
+        if res.get('infra'):
+            chk.inconclusive.append(res['infra'])
+        if c.get('hook_env'):
+            chk.count('cases_ca_bundle_named_in_hook_environment')
+        if res.get('after_withdrawal'):
+            chk.count('cases_root_file_withdrawn_while_running')
+            chk.count('attempts_after_withdrawal', res['after_withdrawal']['attempts'])
         tot = sum(res['requests'].values())
         chk.count('requests_decoded_by_tls_ca', tot)
         chk.count('handshakes_refused_by_client', res['handshake_failures'])
         exp = res['expected']['ca1']
         chk.count('cases_expected_trusted' if exp else 'cases_expected_untrusted')
         if tot or res['handshake_failures']:
-            chk.distinct.add((c['server'], c['by_name'], c['cli'], c['endpoint'], c['global'], bool(c.get('second_endpoint'))))
+            chk.distinct.add((c['server'], c['by_name'], c['cli'], c['endpoint'], c['global'], bool(c.get('second_endpoint')), str(c.get('hook_env')), c.get('withdraw')))
         if not res['problems']:
             chk.sample({k: v for k, v in c.items() if k not in ('pki', 'i')} | {'requests': res['requests'], 'refused_handshakes': res['handshake_failures']})
         seen = set()
@@ -191,11 +287,11 @@ def run(tier):
                 continue
             seen.add(cls)
             srcs = '+'.join(s for s in (c['cli'], c['endpoint'], c['global']))
-            chk.violation('C18|%s|%s|%s' % (cls, c['server'], srcs), what, {k: v for k, v in res.items() if k != 'replay_dir'}, res.get('replay_dir'))
+            chk.violation('C18|%s|%s|%s%s' % (cls, c['server'], srcs, ('|hook-env=%s/%s' % tuple(c['hook_env'])) if c.get('hook_env') else ''), what, {k: v for k, v in res.items() if k != 'replay_dir'}, res.get('replay_dir'))
     chk.exhaustive = (tier == 'thorough')
     chk.rule = ('(server chain: valid, valid through an intermediate, unlisted root, other host name, expired, not yet valid) x (URL by name / by IP) x '
                 '(--root-cert, endpoint root_certificates, global root_certificates each carrying nothing / the right root / a wrong root)%s, plus missing / empty / '
-                'malformed root files at each source and two endpoints of which only one lists the root; distinct = combinations for which the TLS mock CA saw a '
+                'malformed root files at each source, two endpoints of which only one lists the root, CA bundles named in the hooks\' environment tables (SSL_CERT_FILE / SSL_CERT_DIR at global, certificate and account level), root files withdrawn / damaged / replaced while the daemon runs; distinct = combinations for which the TLS mock CA saw a '
                 'handshake attempt or a request' % ('' if tier == 'thorough' else ' (stratified sample)'))
     chk.assumptions = ['the system trust store does not contain the generated roots', 'a request logged by the TLS mock CA implies a completed handshake']
     code = chk.finish()
